@@ -112,6 +112,17 @@ def make_program(cfg):
     import jinns
 
     kind = cfg["kind"]
+    if kind == "system_ode":
+        from . import systems as S
+
+        loss, params, _ = S.build_system(cfg["sys"])
+        data = jinns.data.DataGeneratorODE(jax.random.PRNGKey(cfg["data_key"]), cfg["nt"], 0.0, 1.5, cfg["bt"], method="uniform")
+        tracked = None
+        if cfg.get("tracked") in ("one", "all"):
+            tracked = jinns.parameters.ParamsDict(nn_params=None, eq_params={k: (True if (k == "theta" or cfg["tracked"] == "all") else None)
+                                                                             for k in cfg["sys"]["eq_params"]})
+        return dict(loss=loss, params=params, data=data, param_data=None, obs_data=None, optimizer=optimizer(cfg["opt"]),
+                    tracked=tracked)
     u, nn = make_network(cfg)
     eqp = {"theta": jnp.asarray(cfg["theta"], dtype=float), "alpha": jnp.asarray(cfg["alpha"], dtype=float)}
     coef = list(cfg["coef"])
@@ -363,7 +374,7 @@ def gen_state_equal(a, b):
 
 
 # ------------------------------------------------------------------ strategy
-def program_cfgs(kinds=("ode", "statio", "nonstatio"), aux=True, max_iter=8):
+def program_cfgs(kinds=("ode", "statio", "nonstatio", "system_ode"), aux=True, max_iter=8):
     from hypothesis import strategies as st
 
     from .fields import field_specs, q16
@@ -372,6 +383,24 @@ def program_cfgs(kinds=("ode", "statio", "nonstatio"), aux=True, max_iter=8):
     @st.composite
     def s(draw):
         kind = draw(st.sampled_from(list(kinds)))
+        if kind == "system_ode":
+            from .systems import nfeat
+
+            names = draw(st.sampled_from([["u", "v"], ["v", "u"], ["n1", "0"]]))
+            enames = draw(st.sampled_from([["e1"], ["e1", "e2"], list(names)]))
+            eqp = {"theta": draw(pos16(0.5, 1.5)), "phi": draw(q16(-1, 1))}
+            sys = {"kind": "ode", "dim": 0, "hetero": None, "param_batch": None, "box": {"min": [0.0], "max": [1.5]},
+                   "unknowns": {n: {"field": draw(field_specs(1, 1, nsin=(1, 2), gauss=False)), "transform": "affine"} for n in names},
+                   "eq_params": eqp,
+                   "equations": {e: {"coef": [[draw(q16(-1, 1, nonzero=True)) for _ in range(nfeat(2, 2))]]} for e in enames},
+                   "ic": {n: {"t0": 0.0, "u0": draw(q16(-1, 1))} for n in names}, "obs": None, "boundary": None, "norm": None,
+                   "batch": {"t": [0.5]},
+                   "w": {"dyn_loss": draw(pos16()), "initial_condition": {n: draw(pos16()) for n in reversed(names)}}}
+            nt = draw(st.integers(1, 7))
+            return {"kind": kind, "dim": 0, "sys": sys, "opt": draw(st.sampled_from(OPT_NAMES)), "nt": nt,
+                    "bt": draw(st.integers(1, min(nt, 3))), "data_key": draw(st.integers(0, 2**31 - 1)),
+                    "tracked": draw(st.sampled_from(["none", "one", "all"])), "n_iter": draw(st.integers(1, max_iter)),
+                    "net": {"type": "field"}}
         d = 0 if kind == "ode" else draw(st.sampled_from([1, 2]))
         din = d + (0 if kind == "statio" else 1)
         cfg = {"kind": kind, "dim": d, "opt": draw(st.sampled_from(OPT_NAMES)), "theta": draw(pos16(0.5, 1.5)),
